@@ -2,6 +2,7 @@
 package c13
 
 import (
+	"path"
 	"context"
 	"fmt"
 	"os"
@@ -297,6 +298,15 @@ func checkOrder(w world.World) error {
 			// what the bundle keeps: files not removed by the (built-in) ignore rules
 			if n.Kind == "file" && !refignore.Excluded(rules, n.Path, false) {
 				sig = append(sig, n.Path+"="+n.Content)
+			}
+			if n.Kind == "symlink" && !refignore.Excluded(rules, n.Path, false) {
+				// a link counts with what is read through it
+				tgt := path.Clean(path.Join(path.Dir(n.Path), n.Target))
+				for _, m := range p.Tree() {
+					if m.Kind == "file" && m.Path == tgt {
+						sig = append(sig, n.Path+"="+m.Content)
+					}
+				}
 			}
 		}
 		trees[p.Addr] = strings.Join(sig, "\n")
